@@ -18,6 +18,8 @@ package main
 //	                  Uses of a parameter of type *cdrType.CHFRecord / []*cdrType.CHFRecord count as unheld accesses too: a record
 //	                  handed in is an element of the subscriber's ue.Records, the function has no mutex of its own for it.
 //	  ownLock         the function locks <ue>.CULock itself
+//	                  A call of cgf.SendCDR counts as an access where it is made: it reads the subscriber's CDR file, which the
+//	                  requests of the subscriber rewrite.
 //	  exception       a named reason why the unheld accesses of this function are safe (see `accessExceptions`); "" = none
 //	  root            the function is an HTTP handler of package sbi (it is entered without any lock held)
 //
@@ -188,6 +190,15 @@ func (w *accessWalker) expr(n ast.Node) {
 			}
 			if name != "" && name != "Lock" && name != "Unlock" {
 				*w.calls = append(*w.calls, heldCallSite{caller: w.fact.id, callee: name, held: w.anyHeld()})
+			}
+			// the subscriber's CDR file (/tmp/<supi>.cdr) is subscriber state on disk: the transfer to the billing domain reads it
+			// (cgf.SendCDR lives outside the scanned packages, so the access is counted where the call is made)
+			if name == "SendCDR" {
+				if w.anyHeld() {
+					w.fact.held++
+				} else {
+					w.fact.unheld++
+				}
 			}
 		}
 		return true
